@@ -78,7 +78,9 @@ const testDenom = "utest" // a second native coin, registered as an ERC20 pair t
 
 // Further denominations every user holds when the genesis asks for them (bhGenesis.Extra): an IBC
 // voucher, and two plain coins chosen for their place in the bank's byte-wise denomination order
-//   USDX < aISLM < aLIQUIDn < ibc/… < utest < zcoin
+//
+//	USDX < aISLM < aLIQUIDn < ibc/… < utest < zcoin
+//
 // so that a coin list (a governance deposit, the community pool) can meet a denomination that sorts
 // before, between and after the ones it already holds.
 var bhExtraDenoms = []string{"ibc/27394FB092D2ECCD56123C74F36E4C1F926001CEADA9CA97EA622B25F41E5EB2", "USDX", "zcoin"}
@@ -86,11 +88,11 @@ var bhExtraDenoms = []string{"ibc/27394FB092D2ECCD56123C74F36E4C1F926001CEADA9CA
 const bhExtraAmount = 2_000_000_000
 
 var (
-	bhUserKey  [bhNU]*ethsecp256k1.PrivKey
-	bhUserEth  [bhNU]common.Address
-	bhUserAcc  [bhNU]sdk.AccAddress
-	bhContract [bhNC]common.Address
-	bhValKey   [bhNV + bhNU]*ed25519.PrivKey // consensus keys: genesis validators 0..3, then one per user for create-validator
+	bhUserKey     [bhNU]*ethsecp256k1.PrivKey
+	bhUserEth     [bhNU]common.Address
+	bhUserAcc     [bhNU]sdk.AccAddress
+	bhContract    [bhNC]common.Address
+	bhValKey      [bhNV + bhNU]*ed25519.PrivKey // consensus keys: genesis validators 0..3, then one per user for create-validator
 	addrStakingPC = common.HexToAddress("0x0000000000000000000000000000000000000800")
 	addrDistrPC   = common.HexToAddress("0x0000000000000000000000000000000000000801")
 )
@@ -125,6 +127,13 @@ func actorAddr(i int) common.Address {
 	if i < bhNU+bhNC {
 		return bhContract[i-bhNU]
 	}
+	if i >= 1000 {
+		// a fresh address that has no account yet: a call with value creates it
+		var a common.Address
+		a[0], a[1] = 0xF5, 0xE5
+		a[17], a[18], a[19] = byte(i>>16), byte(i>>8), byte(i)
+		return a
+	}
 	return bhUserEth[i%bhNU]
 }
 
@@ -134,7 +143,9 @@ func valOper(v int) sdk.ValAddress { // validator v is operated by user v (genes
 	}
 	return sdk.ValAddress(bhUserAcc[(v-bhNV)%bhNU])
 }
-func valCons(v int) sdk.ConsAddress { return sdk.ConsAddress(bhValKey[v%len(bhValKey)].PubKey().Address()) }
+func valCons(v int) sdk.ConsAddress {
+	return sdk.ConsAddress(bhValKey[v%len(bhValKey)].PubKey().Address())
+}
 
 // ---------------------------------------------------------------- input
 type bhInstr struct {
@@ -709,7 +720,7 @@ func (r *Replica) encodeProgram(body []bhInstr) ([]byte, error) {
 			if err != nil {
 				return nil, err
 			}
-			if in.T < bhNU {
+			if in.T < bhNU || in.T >= 1000 {
 				payload = nil
 			}
 			out = append(out, encCall(flags, actorAddr(in.T).Bytes(), bigA(in.A), payload)...)
@@ -945,7 +956,7 @@ func (r *Replica) runDirect(t bhTx) string {
 // ---------------------------------------------------------------- history runner
 type histRun struct {
 	risk   map[string]bool // validators the history has made miss blocks or double-sign (at least two others stay untouched)
-	clamp  int // blocks whose time step is forced to 1 s (a validator just left the set, see runBlock)
+	clamp  int             // blocks whose time step is forced to 1 s (a validator just left the set, see runBlock)
 	Rep    *Replica
 	Track  valTracker
 	Blocks []blockResult
@@ -1049,7 +1060,7 @@ func mustProto(m interface{ Marshal() ([]byte, error) }) []byte {
 type stepHooks struct {
 	BeforeEndBlock func(h *histRun, height int64) // after the last DeliverTx (the EndBlockers have not run yet)
 	AfterEndBlock  func(h *histRun, height int64)
-	AfterCommit   func(h *histRun, height int64)
+	AfterCommit    func(h *histRun, height int64)
 	// GenTx, when set, produces the transactions of the block while it is executed
 	// (generation looks at the state); the block description is filled in place.
 	GenTx func(h *histRun, b *bhBlock, i int) *bhTx
